@@ -37,13 +37,18 @@ ScenarioOf(ms, paths) ==
 Scenario(ixs, szs, ds) == ScenarioOf([i \in 1..Len(ixs) |-> Member(ixs[i], szs[i], i)], [i \in 1..Len(ixs) |-> PathOf(ds[i], ixs[i])])
 \* the output path names one of the inputs (same spelling up to letter case and a leading "./"): refused, nothing modified
 OutVariants == << OutName, <<46,47>> \o OutName, ToUpper(OutName), <<46,47,79,46,118,111,108>> >>       \* "o.vol" "./o.vol" "O.VOL" "./O.vol"
-SelfScenario(v, extra) ==
+\* every spelling of the output against every spelling of the input (both directions of the "./" and of the letter case)
+Plain(x) == IF Len(x) >= 2 /\ SubSeq(x, 1, 2) = <<46,47>> THEN SubSeq(x, 3, Len(x)) ELSE x
+SelfScenario(vo, vi, extra) ==
   LET other == Member(extra, 3, 1)
-      self == OutVariants[v]
-  IN << Put(Pool[extra], other.data), Put(OutName, << Lit(<<1, 2, 3>>) >>) >>
-     \o (IF self # OutName /\ self # <<46,47>> \o OutName THEN << Put(self, << Lit(<<4, 5>>) >>) >> ELSE <<>>)
-     \o << VolCreateRel(OutName, << Pool[extra], self >>, "refuse"), FileEq(OutName, << Lit(<<1, 2, 3>>) >>), FileEq(Pool[extra], other.data),
-           VolCreateRel(OutName, << self, Pool[extra] >>, "refuse"), FileEq(OutName, << Lit(<<1, 2, 3>>) >>) >>
+      out == OutVariants[vo]
+      self == OutVariants[vi]
+      sameFile == Plain(out) = Plain(self)
+  IN << Put(Pool[extra], other.data), Put(Plain(out), << Lit(<<1, 2, 3>>) >>) >>
+     \o (IF sameFile THEN <<>> ELSE << Put(Plain(self), << Lit(<<4, 5>>) >>) >>)
+     \o << VolCreateRel(out, << Pool[extra], self >>, "refuse"), FileEq(Plain(out), << Lit(<<1, 2, 3>>) >>), FileEq(Pool[extra], other.data),
+           VolCreateRel(out, << self, Pool[extra] >>, "refuse"), FileEq(Plain(out), << Lit(<<1, 2, 3>>) >>) >>
+     \o (IF sameFile THEN <<>> ELSE << FileEq(Plain(self), << Lit(<<4, 5>>) >>) >>)
 Distinct(ixs) == \A i, j \in DOMAIN ixs : i # j => ixs[i] # ixs[j]
 \* ---- one TLC state per input: the file set (indices into the name pool, sizes) or a "self" case ------------------------------------------
 \* The model-level laws are INVARIANTs evaluated in every state; Export (an invariant that always holds) prints the state's scenario.
@@ -61,7 +66,7 @@ Init == \/ /\ kind = "rand" /\ fset \in {<<r>> : r \in 1..NRand} /\ fsz = <<>>
            /\ \E n \in 0..MaxFiles : fset \in Seqs(1..Len(Pool), n) /\ fsz \in Seqs(Sizes, n)
            /\ Distinct(fset)
         \/ /\ kind = "self" /\ ~Big
-           /\ fset \in {<<v, extra>> : v \in 1..Len(OutVariants), extra \in {1, 3}} /\ fsz = <<>>
+           /\ fset \in {<<vo, vi, extra>> : vo \in 1..Len(OutVariants), vi \in 1..Len(OutVariants), extra \in {1, 3}} /\ fsz = <<>>
 Next == UNCHANGED vars
 Spec == Init /\ [][Next]_vars
 Members == IF kind = "rand" THEN RandMembers(fset[1]) ELSE [i \in 1..Len(fset) |-> Member(fset[i], fsz[i], i)]
@@ -72,7 +77,7 @@ SortedAscending == kind \in {"set", "rand"} => LET s == SortCI(Members) IN
                      /\ Len(s) = Len(Members) /\ \A i \in 1..(Len(s) - 1) : ~Less(s[i + 1].name, s[i].name)
                      /\ \A m \in {Members[i] : i \in 1..Len(Members)} : \E j \in 1..Len(s) : s[j] = m
 Export == IF kind = "rand" THEN (LET sc == ScenarioOf(RandMembers(fset[1]), RandPaths(fset[1])) IN sc # <<>> => PrintT("S|" \o ToJson([id |-> <<"rand", Seed, fset[1]>>, steps |-> sc])))
-          ELSE IF kind = "self" THEN PrintT("S|" \o ToJson([id |-> <<"self", fset>>, steps |-> SelfScenario(fset[1], fset[2])]))
+          ELSE IF kind = "self" THEN PrintT("S|" \o ToJson([id |-> <<"self", fset>>, steps |-> SelfScenario(fset[1], fset[2], fset[3])]))
           ELSE LET n == Len(fset)
                    \* one spelling vector per (fset, fsz), rotating through the directories
                    ds == [i \in 1..n |-> ((fset[i] + fsz[i] + i) % Len(Dirs)) + 1]
